@@ -147,8 +147,10 @@ class Spec:
 
     def __init__(self, name: str, make: Callable[[], Any], optional: dict[str, list[Callable[[], Any]]],
                  setter: Callable[[Any, str, Any], None] | None = None, fixed: tuple[str, ...] = (),
-                 enums: dict[str, list[Any]] | None = None, places: tuple[str, ...] = ("module",)) -> None:
+                 enums: dict[str, list[Any]] | None = None, places: tuple[str, ...] = ("module",),
+                 normalize: Callable[[Any], None] | None = None) -> None:
         self.name, self.make, self.optional, self.fixed = name, make, optional, fixed
+        self.normalize = normalize
         self.setter = setter or setattr
         self.enums = enums or {}
         self.places = places
@@ -192,7 +194,7 @@ def flag_sets(flags: list[str], full_limit: int) -> tuple[list[tuple[str, ...]],
 
 def variants(spec: Spec, full_limit: int) -> Iterator[tuple[dict[str, Any], Callable[[], Any]]]:
     """(label, thunk building the object).  A: all flag sets x {all optional fields at first value, all at last value};
-    B: all combinations of optional/enum values x {no flag, all flags, each single flag}."""
+    B: all combinations of optional/enum values x {no flag set, all flags set}."""
     flags = spec.flags()
     fsets, _full = flag_sets(flags, full_limit)
     opt_names = list(spec.optional) + list(spec.enums)
@@ -206,6 +208,8 @@ def variants(spec: Spec, full_limit: int) -> Iterator[tuple[dict[str, Any], Call
             spec.setter(o, k, val)
         for f in flags:
             spec.setter(o, f, f in fs)
+        if spec.normalize is not None:
+            spec.normalize(o)
         return o
 
     seen: set = set()
@@ -218,7 +222,7 @@ def variants(spec: Spec, full_limit: int) -> Iterator[tuple[dict[str, Any], Call
                 continue
             seen.add(key)
             yield {"class": spec.name, "flags": list(fs), "fields": dict(sel)}, (lambda fs=fs, sel=dict(sel): build(fs, sel))
-    few = [(), tuple(flags)] + [(f,) for f in flags]
+    few = [(), tuple(flags)] if flags else [()]
     for combo in itertools.product(*[choices[k] for k in opt_names]):
         sel = dict(zip(opt_names, combo))
         for fs in few:
@@ -227,6 +231,26 @@ def variants(spec: Spec, full_limit: int) -> Iterator[tuple[dict[str, Any], Call
                 continue
             seen.add(key)
             yield {"class": spec.name, "flags": list(fs), "fields": dict(sel)}, (lambda fs=fs, sel=dict(sel): build(fs, sel))
+
+
+def dense_variants(spec: Spec) -> Iterator[tuple[dict[str, Any], Callable[[], Any]]]:
+    flags = spec.flags()
+    opt_names = list(spec.optional) + list(spec.enums)
+    lasts = {k: len(spec.optional[k] if k in spec.optional else spec.enums[k]) - 1 for k in opt_names}
+
+    def build(fs: tuple[str, ...]) -> Any:
+        o = spec.make()
+        for k, idx in lasts.items():
+            spec.setter(o, k, spec.optional[k][idx]() if k in spec.optional else spec.enums[k][idx])
+        for f in flags:
+            spec.setter(o, f, f in fs)
+        if spec.normalize is not None:
+            spec.normalize(o)
+        return o
+
+    for k in range(len(flags) + 1):
+        for fs in itertools.combinations(flags, k):
+            yield {"class": spec.name, "flags": list(fs), "fields": dict(lasts)}, (lambda fs=fs: build(fs))
 
 
 # --------------------------------------------------------------------------- specs
@@ -241,13 +265,20 @@ def make_specs(pool: Pool) -> list[Spec]:
     def mk_var() -> Any:
         return N.Var("x", None)
 
+    def norm_var(v: Any) -> None:
+        # UNREACHABLE COMBINATION (type None, is_inferred False): semanal clears is_inferred only for a declaration
+        # with an explicit type (make_name_lvalue_var(inferred=not explicit_type)), whose type is then stored; the
+        # JSON reader relies on the constructor default `is_inferred = type is None` and cannot represent it.
+        if v.type is None:
+            v.is_inferred = True
+
     specs.append(Spec("Var", mk_var, {
         "type": [none, pool.int, pool.callable],
         "setter_type": [none, pool.callable],
         "final_value": [none, lambda: 7, lambda: -(2 ** 70), lambda: 0.5, lambda: float("inf"), lambda: "s",
                         lambda: "", lambda: True, lambda: False, lambda: 3 + 2j, lambda: "\ud800",
                         lambda: "x" * 70000],
-    }, fixed=(), places=("module", "member")))
+    }, fixed=(), places=("module", "member"), normalize=norm_var))
 
     def mk_func() -> Any:
         f = N.FuncDef("f", [], N.Block([]), None)
@@ -335,14 +366,19 @@ def make_specs(pool: Pool) -> list[Spec]:
         return info
 
     def set_info_field(o: Any, k: str, v: Any) -> None:
-        if k == "tuple_type":
+        if k in ("tuple_type", "typeddict_type"):
             if v is not None:
-                v.partial_fallback = T.Instance(o, [])
-                o.update_tuple_type(v)
-        elif k == "typeddict_type":
-            if v is not None:
-                o.update_typeddict_type(v)
-        elif k == "type_vars_defn":
+                if k == "tuple_type":
+                    v.partial_fallback = T.Instance(o, [])
+                    o.update_tuple_type(v)
+                else:
+                    o.update_typeddict_type(v)
+                # semanal.py (analyze_class, after a named tuple / typed dict base): same derivation
+                o.special_alias.alias_tvars = list(o.defn.type_vars)
+                for i, t in enumerate(o.defn.type_vars):
+                    if isinstance(t, T.TypeVarTupleType):
+                        o.special_alias.tvar_tuple_index = i
+        elif k == "type_vars_defn":  # first in the table: everything below derives from the class type variables
             if v:
                 o.defn.type_vars = v
                 o.type_vars = []
@@ -351,6 +387,7 @@ def make_specs(pool: Pool) -> list[Spec]:
             setattr(o, k, v)
 
     specs.append(Spec("TypeInfo", mk_info, {
+        "type_vars_defn": [lambda: [], lambda: [pool.tvar(ns="m.K", raw=1), pool.pspec()]],
         "alt_promote": [none, pool.int],
         "declared_metaclass": [none, pool.meta],
         "metaclass_type": [none, pool.meta],
@@ -364,7 +401,6 @@ def make_specs(pool: Pool) -> list[Spec]:
         "_promote": [lambda: [], lambda: [pool.int(), pool.a()]],
         "abstract_attributes": [lambda: [], lambda: [("f", 1), ("g", 2)]],
         "deletable_attributes": [lambda: [], lambda: ["d1", "d2"]],
-        "type_vars_defn": [lambda: [], lambda: [pool.tvar(ns="m.K", raw=1), pool.pspec()]],
     }, setter=set_info_field, fixed=("has_type_var_tuple_type",)))
 
     # ---- SymbolTableNode (flags x kind x node kind) is enumerated separately in batches()
@@ -382,20 +418,34 @@ def make_specs(pool: Pool) -> list[Spec]:
         "variables": [lambda: [], lambda: [pool.tvar()]],
     }, fixed=(), places=("type_arg",)))
     specs.append(Spec("TupleType", pool.tupletype, {}, places=("type",)))
+    def set_td(o: Any, k: str, v: Any) -> None:
+        setattr(o, k, v)
+        if k == "required_keys":  # what TypedDictType.__init__ derives from required_keys
+            o.can_be_false = len(v) == 0
+
     specs.append(Spec("TypedDictType", pool.typeddict, {
         "required_keys": [lambda: set(), lambda: {"zeta", "alpha"}],
         "readonly_keys": [lambda: set(), lambda: {"mid", "alpha"}],
-    }, places=("type",)))
+    }, setter=set_td, places=("type",)))
     specs.append(Spec("UnionType", lambda: T.UnionType([pool.int(), T.NoneType()]), {}, places=("type",)))
     specs.append(Spec("TypeType", lambda: T.TypeType(pool.a()), {}, places=("type",)))
     specs.append(Spec("UnpackType", lambda: T.UnpackType(pool.tvt()), {}, places=("tuple_item",)))
     specs.append(Spec("UninhabitedType", lambda: T.UninhabitedType(), {}, places=("type",)))
     specs.append(Spec("NoneType", lambda: T.NoneType(), {}, places=("type",)))
     specs.append(Spec("DeletedType", lambda: T.DeletedType(), {"source": [none, lambda: "x"]}, places=("type",)))
-    specs.append(Spec("AnyType", lambda: T.AnyType(T.TypeOfAny.explicit), {
-        "source_any": [none, lambda: T.AnyType(T.TypeOfAny.from_unimported_type, None, "pkg.mod")],
-        "missing_import_name": [none, lambda: "pkg.missing"],
-    }, enums={"type_of_any": list(range(1, 10))}, places=("type",)))
+    def set_any(o: Any, k: str, v: Any) -> None:
+        # AnyType has constructor invariants (which kinds may carry a source / an import name): take a whole,
+        # constructor-built value instead of poking single attributes
+        for f in ("type_of_any", "source_any", "missing_import_name"):
+            setattr(o, f, getattr(v, f))
+
+    any_shapes = [lambda k=k: T.AnyType(k) for k in (1, 2, 3, 4, 5, 6, 8, 9)]
+    any_shapes.append(lambda: T.AnyType(T.TypeOfAny.from_unimported_type, None, "pkg.missing"))
+    any_shapes.append(lambda: T.AnyType(T.TypeOfAny.from_another_any, T.AnyType(T.TypeOfAny.explicit)))
+    any_shapes.append(lambda: T.AnyType(T.TypeOfAny.from_another_any,
+                                        T.AnyType(T.TypeOfAny.from_unimported_type, None, "pkg.mod")))
+    specs.append(Spec("AnyType", lambda: T.AnyType(T.TypeOfAny.explicit), {"shape": any_shapes}, setter=set_any,
+                      fixed=("type_of_any", "source_any", "missing_import_name"), places=("type",)))
     specs.append(Spec("UnboundType", lambda: T.UnboundType("nm", [pool.int()]), {
         "original_str_expr": [none, lambda: "  foo "],
         "original_str_fallback": [none, lambda: "builtins.str"],
@@ -585,19 +635,27 @@ def round_trip(mod: Module, env: Env) -> dict[str, Any]:
             out["tolerated"] += sum(1 for x in diffs if c11_walk.tolerated(*x))
             out["diffs"][fmt] = [(c11_walk.field_of(p), _sym_of(p), c11_walk.show_path(p), c11_walk.brief(a), c11_walk.brief(b))
                                  for p, a, b in diffs if not c11_walk.tolerated(p, a, b)]
+        except BaseException as e:  # noqa: BLE001
+            out["stage_errors"][fmt + "-walk"] = _exc(e)
+            continue
+        try:
             re_json[fmt] = json_dumps(t.serialize())
+        except BaseException as e:  # noqa: BLE001
+            out["stage_errors"].setdefault("json-rewrite", _exc(e))
+        try:
             buf = WriteBuffer()
             t.write(buf)
             re_ff[fmt] = buf.getvalue()
         except BaseException as e:  # noqa: BLE001
-            out["stage_errors"][fmt + "-reload"] = _exc(e)
+            out["stage_errors"].setdefault("ff-rewrite", _exc(e))
     b = out["bytes"]
-    if "json" in re_json:
+    if "json" in re_json and "json" in first:
         b["i_json"] = re_json["json"] == first["json"]
-    if "ff" in re_ff:
+    if "ff" in re_ff and "ff" in first:
         b["i_ff"] = re_ff["ff"] == first["ff"]
     if "json" in re_json and "ff" in re_json:
         b["ii_json"] = re_json["json"] == re_json["ff"]
+    if "json" in re_ff and "ff" in re_ff:
         b["ii_ff"] = re_ff["json"] == re_ff["ff"]
     out["counts"] = dumper.counts
     return out
@@ -724,7 +782,12 @@ def run_job(job: dict[str, Any]) -> dict[str, Any]:
                            and f not in spec.optional and f not in spec.enums
                            and not any((k.__name__, f) in UNREACHABLE for k in cls.__mro__)]
         agg["unreachable"] = [f for f in c11_walk.all_slots(cls) if any((k.__name__, f) in UNREACHABLE for k in cls.__mro__)]
-        items = ((lab, th, pl) for lab, th in variants(spec, job["full_limit"]) for pl in spec.places)
+        if job.get("dense"):
+            # thorough only: ALL 2^n flag subsets, every optional field at its last value, last placement
+            agg["flag_sets"], agg["exhaustive_flags"], agg["dense"] = 2 ** len(flags), True, True
+            items = ((lab, th, spec.places[-1]) for lab, th in dense_variants(spec))
+        else:
+            items = ((lab, th, pl) for lab, th in variants(spec, job["full_limit"]) for pl in spec.places)
     group: list[tuple] = []
     for idx, item in enumerate(items):
         if idx % job["parts"] != job["part"]:
